@@ -1,0 +1,35 @@
+//go:build verif
+
+// Contracts checked by /verif/gowp. This file contains comments only and is compiled only
+// with -tags verif.
+
+package definition
+
+// Teardown order of an XRD (C08): the XR controller is stopped only after no XR is left, the
+// CRD is deleted only after the controller was stopped, and the XRD's finalizer is removed
+// only after the CRD is gone (or was never ours) and the controller was stopped. The CRD is
+// written or deleted only while the XRD controls it (C02).
+
+//@ func (*definition.Reconciler).Reconcile
+//@ props C08
+//@ ghost stopped bool = false
+//@ ghost listedEmpty bool = false
+//@ let $crd = result (definition.CRDRenderer).Render
+//@ site (client.Reader).List(_, _, $l)
+//@   update listedEmpty = len(as($l, *kunstructured.UnstructuredList).Items) == 0
+//@ site (definition.ControllerEngine).Stop(_, _, _)
+//@   assert [C08:stop-after-instances-gone] meta.WasDeleted(d) ==>
+//@        (!meta.WasCreated($crd) || !metav1.IsControlledBy($crd, d) || listedEmpty)
+//@   update stopped = stopped || err == nil
+//@ site (client.Writer).Delete(_, _, $obj)
+//@   assert [C08:crd-delete-only-when-xrd-deleted] meta.WasDeleted(d)
+//@   assert [C08:crd-delete-after-stop] stopped
+//@   assert [C08:crd-delete-after-instances-gone] listedEmpty
+//@   assert [C08,C02:crd-delete-only-own] $obj == $crd && metav1.IsControlledBy($crd, d)
+//@ site (resource.Finalizer).RemoveFinalizer(_, _, $o)
+//@   assert [C08:finalizer-only-when-deleted] $o == d && meta.WasDeleted(d)
+//@   assert [C08:finalizer-after-stop] stopped
+//@   assert [C08:finalizer-after-crd-gone] !meta.WasCreated($crd) || !metav1.IsControlledBy($crd, d)
+//@ site (resource.Applicator).Apply(_, _, $o, $opts...)
+//@   assert [C08:no-apply-while-deleting] !meta.WasDeleted(d)
+//@   assert [C02:crd-apply-controllable] $o == $crd && contains($opts, resource.MustBeControllableBy(d.GetUID()))
